@@ -5,6 +5,7 @@ go 1.21
 require (
 	github.com/mithrandie/csvq v0.0.0
 	github.com/mithrandie/ternary v1.1.1
+	golang.org/x/text v0.8.0
 )
 
 require (
@@ -14,7 +15,6 @@ require (
 	golang.org/x/crypto v0.7.0 // indirect
 	golang.org/x/sys v0.6.0 // indirect
 	golang.org/x/term v0.6.0 // indirect
-	golang.org/x/text v0.8.0 // indirect
 )
 
 replace github.com/mithrandie/csvq => /repo
